@@ -164,12 +164,7 @@ func (e *env) memLoadContainerShape(q mQuery) bool {
 		if !ok {
 			continue
 		}
-		matched := true
-		for _, a := range q.Cond {
-			if !a.match(s.Tags) {
-				matched = false
-			}
-		}
+		matched := q.matches(s.Tags)
 		if !matched {
 			continue
 		}
@@ -253,12 +248,7 @@ func (e *env) memParallelLoadShape(q mQuery) bool {
 		if !ok {
 			continue
 		}
-		matched := true
-		for _, a := range q.Cond {
-			if !a.match(s.Tags) {
-				matched = false
-			}
-		}
+		matched := q.matches(s.Tags)
 		if !matched {
 			continue
 		}
@@ -334,12 +324,7 @@ func (e *env) seriesIDClasses(q mQuery) []string {
 		if !ok {
 			continue
 		}
-		matched := true
-		for _, a := range q.Cond {
-			if !a.match(s.Tags) {
-				matched = false
-			}
-		}
+		matched := q.matches(s.Tags)
 		for fname, pts := range s.Fields {
 			for _, p := range pts {
 				if !e.inFile(p) {
